@@ -143,4 +143,12 @@ func runC30(c *Ctx) {
 		sort.Strings(shared)
 		c.Check(len(shared) == 0, r2, "package jsondb keeps no package-level container that could share comparer objects", token.NoPos, "none", fmt.Sprintf("package-level shared state: %v", shared), nil)
 	}
+	r3 := c.Rule("R3", "the per-field comparers an index specification memoises (btree.CoerceComparer's closures, btree.Compare) order missing values consistently: (nil, nil) compares equal and a nil operand sorts on the same side whichever argument it is (shared with C29.R3) - otherwise the order of two keys that both lack an optional field depends on which closure a handle happened to memoise first", 4)
+	fco := c.W.Fn("btree.CoerceComparer")
+	c.Analysed(fco)
+	nilOrderRule(c, r3, c.W.Fn("btree.Compare"))
+	for _, l := range c.W.allLits(fco) {
+		nilOrderRule(c, r3, l)
+	}
+
 }
